@@ -13,8 +13,66 @@ import (
 )
 
 type Locker = sync.Locker
-type WaitGroup = sync.WaitGroup
-type Map = sync.Map
+
+// WaitGroup: counter and waiting are modelled by the scheduler.
+type WaitGroup struct{ wg sync.WaitGroup }
+
+func (w *WaitGroup) Add(delta int) {
+	if verifrt.Sync != nil {
+		addr := uintptr(unsafe.Pointer(w))
+		for i := 0; i < delta; i++ {
+			verifrt.Sync(verifrt.EvWGAdd, addr)
+		}
+		for i := 0; i < -delta; i++ {
+			verifrt.Sync(verifrt.EvWGDone, addr)
+		}
+		return
+	}
+	w.wg.Add(delta)
+}
+
+func (w *WaitGroup) Done() { w.Add(-1) }
+
+func (w *WaitGroup) Wait() {
+	if verifrt.Sync != nil {
+		verifrt.Sync(verifrt.EvWGWait, uintptr(unsafe.Pointer(w)))
+		return
+	}
+	w.wg.Wait()
+}
+
+// Map is the real sync.Map; every operation is in addition a visible step that
+// synchronises with every other operation on the same Map (more
+// happens-before edges than the memory model promises, never fewer: the race
+// oracle stays free of false reports).
+type Map struct{ m sync.Map }
+
+func (m *Map) ev() {
+	if verifrt.Sync != nil {
+		verifrt.Sync(verifrt.EvAtomicRMW, uintptr(unsafe.Pointer(m)))
+	}
+}
+func (m *Map) Load(k any) (any, bool)           { m.ev(); return m.m.Load(k) }
+func (m *Map) Store(k, v any)                   { m.ev(); m.m.Store(k, v) }
+func (m *Map) LoadOrStore(k, v any) (any, bool) { m.ev(); return m.m.LoadOrStore(k, v) }
+func (m *Map) LoadAndDelete(k any) (any, bool)  { m.ev(); return m.m.LoadAndDelete(k) }
+func (m *Map) Delete(k any)                     { m.ev(); m.m.Delete(k) }
+func (m *Map) Swap(k, v any) (any, bool)        { m.ev(); return m.m.Swap(k, v) }
+func (m *Map) CompareAndSwap(k, o, n any) bool  { m.ev(); return m.m.CompareAndSwap(k, o, n) }
+func (m *Map) CompareAndDelete(k, o any) bool   { m.ev(); return m.m.CompareAndDelete(k, o) }
+func (m *Map) Clear()                           { m.ev(); m.m.Clear() }
+func (m *Map) Range(f func(k, v any) bool) {
+	m.ev()
+	// snapshot first: f may call back into the Map
+	type kv struct{ k, v any }
+	var all []kv
+	m.m.Range(func(k, v any) bool { all = append(all, kv{k, v}); return true })
+	for _, e := range all {
+		if !f(e.k, e.v) {
+			return
+		}
+	}
+}
 
 // Pool models sync.Pool deterministically and adversarially: Get hands back the
 // most recently Put object whenever there is one (sync.Pool may do exactly
@@ -27,6 +85,10 @@ type Pool struct {
 }
 
 func (p *Pool) Get() any {
+	if verifrt.Sync != nil {
+		// a Put happens-before the Get that returns its object
+		verifrt.Sync(verifrt.EvAtomicRMW, uintptr(unsafe.Pointer(p)))
+	}
 	p.mu.Lock()
 	if n := len(p.free); n > 0 {
 		x := p.free[n-1]
@@ -44,6 +106,9 @@ func (p *Pool) Get() any {
 func (p *Pool) Put(x any) {
 	if x == nil {
 		return
+	}
+	if verifrt.Sync != nil {
+		verifrt.Sync(verifrt.EvAtomicRMW, uintptr(unsafe.Pointer(p)))
 	}
 	p.mu.Lock()
 	p.free = append(p.free, x)
@@ -70,7 +135,7 @@ func (m *Mutex) Unlock() {
 
 func (m *Mutex) TryLock() bool {
 	if verifrt.Sync != nil {
-		panic("vsync: TryLock is not modelled")
+		return verifrt.Sync(verifrt.EvTryLock, uintptr(unsafe.Pointer(m))) == 1
 	}
 	return m.mu.TryLock()
 }
@@ -158,22 +223,51 @@ func OnceValues[T1, T2 any](f func() (T1, T2)) func() (T1, T2) {
 
 func (m *RWMutex) TryLock() bool {
 	if verifrt.Sync != nil {
-		panic("vsync: TryLock is not modelled")
+		return verifrt.Sync(verifrt.EvTryLock, uintptr(unsafe.Pointer(m))) == 1
 	}
 	return m.mu.TryLock()
 }
 
 func (m *RWMutex) TryRLock() bool {
 	if verifrt.Sync != nil {
-		panic("vsync: TryRLock is not modelled")
+		return verifrt.Sync(verifrt.EvTryRLock, uintptr(unsafe.Pointer(m))) == 1
 	}
 	return m.mu.TryRLock()
 }
 
-// Cond is the real condition variable over a (possibly modelled) Locker. A Wait
-// under the cooperative scheduler would block the only running thread; code that
-// waits on conditions is outside what the scheduler models (reported as a
-// deadlock of the scenario).
-type Cond = sync.Cond
+// Cond: waiting and waking are modelled by the scheduler (the waiter is
+// registered before it releases the lock, as sync.Cond.Wait does atomically).
+type Cond struct {
+	L Locker
+	c *sync.Cond
+}
 
-func NewCond(l Locker) *Cond { return sync.NewCond(l) }
+func NewCond(l Locker) *Cond { return &Cond{L: l, c: sync.NewCond(l)} }
+
+func (c *Cond) Wait() {
+	if verifrt.Sync != nil {
+		addr := uintptr(unsafe.Pointer(c))
+		verifrt.Sync(verifrt.EvCondEnq, addr)
+		c.L.Unlock()
+		verifrt.Sync(verifrt.EvCondWait, addr)
+		c.L.Lock()
+		return
+	}
+	c.c.Wait()
+}
+
+func (c *Cond) Signal() {
+	if verifrt.Sync != nil {
+		verifrt.Sync(verifrt.EvCondSignal, uintptr(unsafe.Pointer(c)))
+		return
+	}
+	c.c.Signal()
+}
+
+func (c *Cond) Broadcast() {
+	if verifrt.Sync != nil {
+		verifrt.Sync(verifrt.EvCondBcast, uintptr(unsafe.Pointer(c)))
+		return
+	}
+	c.c.Broadcast()
+}
